@@ -343,3 +343,217 @@ pub mod leaf {
         crate::config::Config::default().verif_bytes_threshold()
     }
 }
+
+/// Interpreter-style access to the intrusive lists of `src/lists.rs` (`LinkedList`,
+/// `PossibleCycles`, `LinkedQueue`) over an arena of detached test nodes.
+///
+/// Every function calls exactly one function of `src/lists.rs` on the list with the given index
+/// and the node with the given arena index; [`Arena::snapshot`] reads all links, marks and
+/// tracing counters back. Nothing here is used by the crate itself.
+pub mod lists {
+    use alloc::vec::Vec;
+    use core::alloc::Layout;
+    use core::ptr::NonNull;
+
+    use crate::cc::CcBox;
+    use crate::counter_marker::Mark;
+    use crate::lists::{LinkedList, LinkedQueue, PossibleCycles};
+
+    /// `next`, `prev` (as arena indices), mark (0 = NonMarked, 1 = PossibleCycles, 2 = InList,
+    /// 3 = InQueue) and tracing counter of one node.
+    #[derive(Clone, Debug, PartialEq, Eq)]
+    pub struct NodeSnap {
+        pub next: Option<usize>,
+        pub prev: Option<usize>,
+        pub mark: u8,
+        pub tc: u16,
+    }
+
+    /// Head(s), cached size, `is_empty()` and the elements yielded by `iter()` of one list.
+    #[derive(Clone, Debug, PartialEq, Eq)]
+    pub struct ListSnap {
+        pub first: Option<usize>,
+        /// `LinkedQueue` only.
+        pub last: Option<usize>,
+        /// `PossibleCycles` only.
+        pub size: usize,
+        pub is_empty: bool,
+        pub iter: Vec<usize>,
+    }
+
+    /// Everything observable about an [`Arena`].
+    #[derive(Clone, Debug, PartialEq, Eq)]
+    pub struct Snapshot {
+        pub ll: Vec<ListSnap>,
+        pub pc: Vec<ListSnap>,
+        pub q: Vec<ListSnap>,
+        pub nodes: Vec<NodeSnap>,
+    }
+
+    /// `nodes` detached allocations and some lists of each kind that may link them.
+    pub struct Arena {
+        nodes: Vec<NonNull<CcBox<()>>>,
+        ll: Vec<LinkedList>,
+        pc: Vec<PossibleCycles>,
+        q: Vec<LinkedQueue>,
+    }
+
+    fn mark_of(mark: u8) -> Mark {
+        match mark & 3 {
+            0 => Mark::NonMarked,
+            1 => Mark::PossibleCycles,
+            2 => Mark::InList,
+            _ => Mark::InQueue,
+        }
+    }
+
+    impl Arena {
+        pub fn new(nodes: usize, linked_lists: usize, possible_cycles: usize, queues: usize) -> Arena {
+            Arena {
+                nodes: (0..nodes).map(|_| CcBox::verif_new(())).collect(),
+                ll: (0..linked_lists).map(|_| LinkedList::new()).collect(),
+                pc: (0..possible_cycles).map(|_| PossibleCycles::new()).collect(),
+                q: (0..queues).map(|_| LinkedQueue::new()).collect(),
+            }
+        }
+
+        fn index(&self, ptr: Option<NonNull<CcBox<()>>>) -> Option<usize> {
+            ptr.map(|p| self.nodes.iter().position(|&n| n == p).unwrap_or(usize::MAX))
+        }
+
+        // LinkedList
+
+        pub fn ll_add(&mut self, list: usize, node: usize) {
+            self.ll[list].add(self.nodes[node]);
+        }
+
+        pub fn ll_remove(&mut self, list: usize, node: usize) {
+            self.ll[list].remove(self.nodes[node]);
+        }
+
+        pub fn ll_remove_first(&mut self, list: usize) -> Option<usize> {
+            let r = self.ll[list].remove_first();
+            self.index(r)
+        }
+
+        /// Replaces the list with a new one and drops the old value.
+        pub fn ll_drop(&mut self, list: usize) {
+            drop(core::mem::replace(&mut self.ll[list], LinkedList::new()));
+        }
+
+        // PossibleCycles
+
+        pub fn pc_add(&mut self, list: usize, node: usize) {
+            self.pc[list].add(self.nodes[node]);
+        }
+
+        pub fn pc_remove(&mut self, list: usize, node: usize) {
+            self.pc[list].remove(self.nodes[node]);
+        }
+
+        pub fn pc_remove_first(&mut self, list: usize) -> Option<usize> {
+            let r = self.pc[list].remove_first();
+            self.index(r)
+        }
+
+        /// `pc[list].swap_list(&mut ll[to_swap], to_swap_size)`.
+        #[cfg(feature = "finalization")]
+        pub fn pc_swap_list(&mut self, list: usize, to_swap: usize, to_swap_size: usize) {
+            unsafe { self.pc[list].swap_list(&mut self.ll[to_swap], to_swap_size) }
+        }
+
+        /// `pc[list].mark_self_and_append(mark, ll[to_append], to_append_size)`; `ll[to_append]`
+        /// is moved out and replaced with a new list.
+        #[cfg(feature = "finalization")]
+        pub fn pc_mark_self_and_append(&mut self, list: usize, mark: u8, to_append: usize, to_append_size: usize) {
+            let moved = core::mem::replace(&mut self.ll[to_append], LinkedList::new());
+            unsafe { self.pc[list].mark_self_and_append(mark_of(mark), moved, to_append_size) }
+        }
+
+        /// Replaces the list with a new one and drops the old value.
+        pub fn pc_drop(&mut self, list: usize) {
+            drop(core::mem::replace(&mut self.pc[list], PossibleCycles::new()));
+        }
+
+        // LinkedQueue
+
+        pub fn q_add(&mut self, queue: usize, node: usize) {
+            self.q[queue].add(self.nodes[node]);
+        }
+
+        pub fn q_poll(&mut self, queue: usize) -> Option<usize> {
+            let r = self.q[queue].poll();
+            self.index(r)
+        }
+
+        /// Replaces the queue with a new one and drops the old value.
+        pub fn q_drop(&mut self, queue: usize) {
+            drop(core::mem::replace(&mut self.q[queue], LinkedQueue::new()));
+        }
+
+        // Node headers
+
+        pub fn set_mark(&mut self, node: usize, mark: u8) {
+            unsafe { self.nodes[node].as_ref() }.counter_marker().mark(mark_of(mark));
+        }
+
+        /// Sets the tracing counter to `tc` (reset, then `tc` increments).
+        pub fn set_tc(&mut self, node: usize, tc: u16) {
+            let cm = unsafe { self.nodes[node].as_ref() }.counter_marker();
+            cm.reset_tracing_counter();
+            for _ in 0..tc {
+                let _ = cm.increment_tracing_counter();
+            }
+        }
+
+        /// Reads everything back; `iter()` is followed for at most `limit` elements.
+        pub fn snapshot(&self, limit: usize) -> Snapshot {
+            Snapshot {
+                ll: self.ll.iter().map(|l| ListSnap {
+                    first: self.index(l.first()),
+                    last: None,
+                    size: 0,
+                    is_empty: l.is_empty(),
+                    iter: l.iter().take(limit).map(|p| self.index(Some(p)).unwrap()).collect(),
+                }).collect(),
+                pc: self.pc.iter().map(|l| ListSnap {
+                    first: self.index(l.first()),
+                    last: None,
+                    size: l.size(),
+                    is_empty: l.is_empty(),
+                    iter: l.iter().take(limit).map(|p| self.index(Some(p)).unwrap()).collect(),
+                }).collect(),
+                q: self.q.iter().map(|l| ListSnap {
+                    first: self.index(l.peek()),
+                    last: self.index(l.verif_last()),
+                    size: 0,
+                    is_empty: l.is_empty(),
+                    iter: l.into_iter().take(limit).map(|p| self.index(Some(p)).unwrap()).collect(),
+                }).collect(),
+                nodes: self.nodes.iter().map(|n| unsafe {
+                    let (tw, _) = n.as_ref().counter_marker().verif_words();
+                    NodeSnap {
+                        next: self.index(*n.as_ref().get_next()),
+                        prev: self.index(*n.as_ref().get_prev()),
+                        mark: (tw >> 14) as u8,
+                        tc: tw & 0x3fff,
+                    }
+                }).collect(),
+            }
+        }
+    }
+
+    impl Drop for Arena {
+        fn drop(&mut self) {
+            // The lists unlink their nodes while the nodes are still allocated
+            self.ll.clear();
+            self.pc.clear();
+            self.q.clear();
+            let _ = crate::state::try_state(|state| {
+                for &n in &self.nodes {
+                    unsafe { crate::utils::cc_dealloc(n, Layout::new::<CcBox<()>>(), state) };
+                }
+            });
+        }
+    }
+}
